@@ -92,4 +92,59 @@ theorem setwise_eq_spec (g : Geno) (haps : List Hap) (h : Hap) (hh : h ∈ haps)
     Option.getD_some, List.getElem_idxOf hlt]
   exact Bool.beq_comm ..
 
+/-! ### ancestry-aware transforms (`HaplotypeAncestry.transform`, `HaplotypesAncestry.transform`) -/
+
+/-- genotypes with local ancestry: `anc s v k` is the ancestry code of strand `k` of sample `s` at variant `v` -/
+structure GenoA where
+  g : Geno
+  anc : Nat → String → Nat → Nat
+
+/-- `ancestry == label` for one haplotype: `code = none` is the `-1` sentinel of a label that occurs nowhere in the
+    data – it equals no stored (unsigned) code -/
+def ancAll (ga : GenoA) (code : Option Nat) (h : Hap) (s k : Nat) : Bool :=
+  h.vars.all (fun key => match code with
+    | none => false
+    | some c => ga.anc s key.1 k == c)
+
+/-- specification with ancestry: all alleles match and the local ancestry at each of the variants is the label -/
+def carriesA (ga : GenoA) (code : Option Nat) (h : Hap) (s k : Nat) : Bool :=
+  carries ga.g h s k && ancAll ga code h s k
+
+def singleA (ga : GenoA) (code : Option Nat) (h : Hap) (s k : Nat) : Bool :=
+  single ga.g h s k && ancAll ga code h s k
+
+/-- set-wise: the ancestry columns are gathered through the same `idxs[i]` as the equality columns -/
+def setwiseA (ga : GenoA) (code : Option Nat) (haps : List Hap) (h : Hap) (s k : Nat) : Bool :=
+  let dict := buildDict haps
+  let ancCols : List Bool := dict.map (fun key => match code with
+    | none => false
+    | some c => ga.anc s key.1 k == c)
+  let idxs := h.vars.map (fun key => dict.idxOf key)
+  idxs.all (fun i => ancCols[i]?.getD false) && setwise ga.g haps h s k
+
+theorem singleA_eq_spec (ga : GenoA) (code : Option Nat) (h : Hap) (s k : Nat) :
+    singleA ga code h s k = carriesA ga code h s k := by
+  unfold singleA carriesA; rw [single_eq_spec]
+
+theorem setwiseA_eq_spec (ga : GenoA) (code : Option Nat) (haps : List Hap) (h : Hap) (hh : h ∈ haps) (s k : Nat) :
+    setwiseA ga code haps h s k = carriesA ga code h s k := by
+  unfold setwiseA carriesA ancAll
+  rw [setwise_eq_spec ga.g haps h hh, Bool.and_comm]
+  congr 1
+  simp only [List.all_map]
+  apply all_congr_mem
+  intro key hk
+  have hmem := key_in_dict haps h hh key hk
+  have hlt : (buildDict haps).idxOf key < (buildDict haps).length := List.idxOf_lt_length_iff.mpr hmem
+  simp only [Function.comp, List.getElem?_map, List.getElem?_eq_getElem hlt, Option.map_some,
+    Option.getD_some, List.getElem_idxOf hlt]
+
+/-- a label occurring nowhere in the data never matches (and never fails) -/
+theorem absent_label_never_matches (ga : GenoA) (h : Hap) (hne : h.vars ≠ []) (s k : Nat) :
+    carriesA ga none h s k = false := by
+  unfold carriesA ancAll
+  cases hv : h.vars with
+  | nil => exact absurd hv hne
+  | cons a t => simp
+
 end Transform
